@@ -24,6 +24,7 @@
 //! Op vocabulary (same as `lean/Woodpile/Driver/SortedDeque.lean`):
 //!   conv pair|whole [digest] | push k v | find k v | remove k v | pop_first | pop_last | first | last
 //!   | is_empty | iter | clear | new k:v,k:v,.. | at n <op>       (`v` = `-` for an erased item)
+//!   | iterscript <script>     iterator-protocol script (`iterscript.rs`) on `iter()`; no state change
 use crate::util::*;
 use sliding_deque::traits::{PushTruncateContainer, SortedDequeComparator, SortedDequeItem, SortedDequeMarker};
 use sliding_deque::SortedDeque;
@@ -496,8 +497,53 @@ where
         so
     }
 
+    /// `iterscript <script>`: an iterator-protocol script (`iterscript.rs`) on `SortedDeque::iter()` of
+    /// both real deques (forward only), against a `Vec` of the reference map's items.  No state changes.
+    fn run_iterscript(&mut self, script: &str) -> StepOut {
+        use crate::iterscript as its;
+        let Some(steps) = its::parse(script) else { return StepOut::bad() };
+        let mut so = StepOut::default();
+        let cur = &self.cur;
+        let items: Vec<String> = cur.r.values().map(|x| fmt_raw(V::raw(x))).collect();
+        let res = catch_unwind(AssertUnwindSafe(|| {
+            let what_v = format!("{}/vec: SortedDeque::iter() against the reference ordered map", V::NAME);
+            let what_s = format!("{}/smallvec: SortedDeque::iter() against the reference ordered map", V::NAME);
+            let a = its::run_both("C16", &what_v, &steps, script, its::forward(cur.v.iter(), |x: &V::Item| fmt_raw(V::raw(x)), its::cap_for(items.len())), items.clone(), false);
+            let b = its::run_both("C16", &what_s, &steps, script, its::forward(cur.s.iter(), |x: &V::Item| fmt_raw(V::raw(x)), its::cap_for(items.len())), items.clone(), false);
+            (a, b)
+        }));
+        so.tags.push(format!("{}_op_iterscript", V::NAME));
+        match res {
+            Err(_) => {
+                self.dead = true;
+                so.obs.push("panic".into());
+                if cur.lawful {
+                    so.violations.push(format!("C16 {}: panic in `iterscript {}`", V::NAME, script));
+                }
+            }
+            Ok(((oa, da), (ob, db))) => {
+                if cur.lawful {
+                    so.violations.extend(da);
+                    so.violations.extend(db);
+                }
+                if oa != ob {
+                    so.violations.push(format!("C16 {}: vec and smallvec deques disagree on `iterscript {}`: [{}] vs [{}]", V::NAME, script, oa, ob));
+                    so.obs.push(format!("small {}", ob));
+                }
+                so.obs.push(oa);
+            }
+        }
+        so
+    }
+
     fn step(&mut self, w: &[&str]) -> StepOut {
         match w {
+            ["iterscript", script] => {
+                if self.dead {
+                    return StepOut::obs("dead");
+                }
+                self.run_iterscript(script)
+            }
             ["at", k, rest @ ..] => {
                 let (Ok(k), Some(op)) = (k.parse::<usize>(), parse_op(rest)) else { return StepOut::bad() };
                 if !op_ok::<V>(&op) {
@@ -541,6 +587,9 @@ struct SortedExec {
 }
 
 impl Exec for SortedExec {
+    fn flush_before(&self, w: &[&str]) -> bool {
+        matches!(w, ["iterscript", ..])
+    }
     fn step(&mut self, w: &[&str]) -> StepOut {
         match w {
             ["conv", "pair"] => {
@@ -756,6 +805,17 @@ fn large_case(rng: &mut Rng, whole: bool, nmin: u64, nmax: u64) -> Vec<String> {
     }
     ops.push("is_empty".into());
     ops.push("iter".into());
+    // iterator protocol on a deque that is mostly tombstones (short answers only)
+    let n = live.len();
+    for sc in [
+        format!("h,n,t{},h,n,s{},h,y3,c", n / 3, n / 4),
+        format!("t{},h,k5,a", n.saturating_sub(3)),
+        format!("s{},n,h,l", n / 2),
+        format!("n,p{}.6", (n / 5).max(1)),
+        "h,c".to_string(),
+    ] {
+        ops.push(format!("iterscript {}", sc));
+    }
     ops
 }
 
@@ -827,6 +887,22 @@ impl Family for SortedFamily {
                     }
                 }
                 cases.push(ops);
+            }
+        }
+        // iterator protocol (track gen3): every script of <= 2 (thorough: 3) non-consuming steps over the
+        // small alphabet, alone and followed by each consuming step, on a deque of 5 live items with
+        // tombstones in the middle (7 pushed, 2 removed), on a one-item deque and on an empty one
+        for conv in ["pair", "whole"] {
+            let fill: Vec<String> = (1..=7u32).map(|k| format!("push {} {}", k, val(k))).chain([3u32, 5].iter().map(|k| format!("remove {} {}", k, val(*k)))).collect();
+            for (k, setup) in [fill, vec![format!("push 4 {}", val(4))], vec![]].into_iter().enumerate() {
+                let depth = if k == 0 { if thorough { 3 } else { 2 } } else { if thorough { 2 } else { 1 } };
+                let scripts = crate::iterscript::enum_scripts(depth, false, 7);
+                for chunk in scripts.chunks(250) {
+                    let mut ops = vec![format!("conv {}", conv)];
+                    ops.extend(setup.iter().cloned());
+                    ops.extend(chunk.iter().map(|sc| format!("iterscript {}", sc)));
+                    cases.push(ops);
+                }
             }
         }
         let plain = if thorough { 4 } else { 3 };
@@ -997,10 +1073,14 @@ impl Family for SortedFamily {
                 14 => ops.push((*rng.pick(&["first", "last", "is_empty"])).to_string()),
                 _ => ops.push("iter".into()),
             }
+            if rng.chance(1, 10) {
+                let de = rng.chance(1, 40);
+                ops.push(format!("iterscript {}", crate::iterscript::gen_script(rng, live.len(), de)));
+            }
         }
         if unwinding {
             for (i, op) in ops.iter_mut().enumerate() {
-                if !nowrap.contains(&i) && rng.chance(1, 4) {
+                if !nowrap.contains(&i) && !op.starts_with("iterscript") && rng.chance(1, 4) {
                     *op = format!("unwinding {}", op);
                 }
             }
